@@ -15,6 +15,8 @@ SPEC = os.path.join(ROOT, "spec")
 HARNESS = os.path.join(ROOT, "harness")
 TLA_CP = "/opt/veriftools/tla/tla2tools.jar:/opt/veriftools/tla/CommunityModules-deps.jar"
 NCPU = os.cpu_count() or 4
+# every timeout below is a safety net against hangs, not a performance requirement: on a loaded machine a slow run is still a valid run
+TSCALE = float(os.environ.get("VERIF_TIMEOUT_SCALE", "3"))
 
 
 class Inconclusive(Exception):
@@ -88,6 +90,7 @@ def run_driver(binary, test_run, env=None, timeout=1200, cwd=None, args=()):
     """Run one Test function of a driver binary. Returns (rc, stdout+stderr)."""
     e = goenv()
     e.update(env or {})
+    timeout = int(timeout * TSCALE)
     cmd = [binary, "-test.run", "^" + test_run + "$", "-test.count=1", "-test.timeout", "%ds" % (timeout + 30), "-test.v"]
     cmd += list(args)
     try:
@@ -125,6 +128,7 @@ def tlc(spec_dir, module, cfg=None, workdir=None, workers=None, timeout=600, sim
     """Run TLC on a scratch copy of spec_dir (plus extra_files: {name: path-or-bytes}).
        simulate: None or "num=N" ; returns TLCResult."""
     assert workdir
+    timeout = int(timeout * TSCALE)
     if os.path.exists(workdir):
         shutil.rmtree(workdir)
     shutil.copytree(spec_dir, workdir)
